@@ -587,6 +587,10 @@ async fn publisher_recovers_under_backpressure(addr: SocketAddr, certs: &Certs, 
             }
         }
     });
+    // In 2 of 3 runs the caller first flushes: flush() returns Ok only once the stream has been re-established (or the
+    // retry budget is spent, which the sends below then report), so everything sent after it is "published after
+    // recovery" in the strictest sense and none of it may be lost.
+    let flushed_first = id % 3 != 0 && matches!(tokio::time::timeout(Duration::from_secs(30), publ.flush()).await, Ok(Ok(())));
     // publish again: small numbered messages from 9 000 001 on
     let mut results: Vec<(u64, bool, String)> = vec![];
     for k in 0..40u64 {
@@ -615,14 +619,17 @@ async fn publisher_recovers_under_backpressure(addr: SocketAddr, certs: &Certs, 
     let Some(first_ok) = first_ok else {
         return Err(V("publisher/not-recovered/back-pressure".into(), format!("none of 40 sends after the cut succeeded, e.g. {:?}", results.first().map(|r| r.2.clone()))));
     };
-    // the send that met the broken connection may lose its item; everything told Ok after it must arrive
-    let lost: Vec<u64> = results.iter().skip(first_ok + 1).filter(|r| r.1 && !got.contains(&r.0)).map(|r| r.0).collect();
+    // the send that met the broken connection may lose its item (unless a flush had re-established the stream before);
+    // everything told Ok after it must arrive
+    let skip = if flushed_first { 0 } else { first_ok + 1 };
+    let lost: Vec<u64> = results.iter().skip(skip).filter(|r| r.1 && !got.contains(&r.0)).map(|r| r.0).collect();
     if !lost.is_empty() {
         return Err(V(
             "publisher/lost-after-recovery/back-pressure".into(),
             format!(
-                "the publisher lost its connection while blocked by back-pressure ({} × 48 KiB in flight); afterwards send() returned Ok for {} messages, of which {} never reached the subscriber (first lost {}, first delivered {:?})",
+                "the publisher lost its connection while blocked by back-pressure ({} × 48 KiB in flight){}; afterwards send() returned Ok for {} messages, of which {} never reached the subscriber (first lost {}, first delivered {:?})",
                 n,
+                if flushed_first { ", then flush() returned Ok" } else { "" },
                 results.iter().filter(|r| r.1).count(),
                 lost.len(),
                 lost[0],
@@ -2207,10 +2214,10 @@ pub fn run(rep: &mut StageReport, tier: &str, _seed: u64) {
             };
             out.push(("recovery/idle-streams".to_string(), cfg, r));
         }
-        // publisher cut while blocked by back-pressure
-        {
-            let cfg = json!({"role": "publisher", "state_at_cut": "blocked by back-pressure, a frame half-written", "backoff": "constant 40 ms", "max_attempts": 5});
-            let r = match tokio::time::timeout(Duration::from_secs(200), publisher_recovers_under_backpressure(server.addr, &certs.0, 1)).await {
+        // publisher cut while blocked by back-pressure (caller flushes first / sends straight away)
+        for bp_id in if thorough { vec![1u64, 3, 2] } else { vec![1u64] } {
+            let cfg = json!({"role": "publisher", "state_at_cut": "blocked by back-pressure, a frame half-written", "caller_flushes_before_sending_again": bp_id % 3 != 0, "backoff": "constant 40 ms", "max_attempts": 5});
+            let r = match tokio::time::timeout(Duration::from_secs(200), publisher_recovers_under_backpressure(server.addr, &certs.0, bp_id)).await {
                 Ok(r) => r,
                 Err(_) => Err(V("INCONCLUSIVE".into(), "watchdog: back-pressure scenario did not finish in 200 s".into())),
             };
